@@ -333,7 +333,7 @@ struct LifeHttpHandler : public Http::Handler {
     }
     void onDisconnection(const std::shared_ptr<Tcp::Peer>& peer) override { std::lock_guard<std::mutex> g(g_m); PeerLife& l = g_life[peer->getID()]; l.disc++; l.events += 'D'; l.obj = peer; }
 };
-static const char* BEHAVIOUR[] = {"connect-close", "partial-then-close", "exchange-then-close", "half-close-then-read", "reset", "reset-with-pending-response", "silence-until-idle-timeout", "armed-timeout-answered-before", "keepalive-3-requests-then-close", "exchange-then-silence-until-idle-timeout", "slow-request-keeps-worker-busy", "partial-then-immediate-close-while-worker-busy", "send-and-half-close-at-once-while-worker-busy", "request-a-streamed-response-then-reset", "long-poll-then-leave-before-the-response-time-out", "unread-response-then-silence-past-the-idle-time-out-then-close", "silence-past-the-idle-time-out-then-orderly-close", "slow-request-keeps-worker-busy-past-the-idle-time-out", "reset-with-pending-file-response", "file-response-read-to-the-end"};
+static const char* BEHAVIOUR[] = {"connect-close", "partial-then-close", "exchange-then-close", "half-close-then-read", "reset", "reset-with-pending-response", "silence-until-idle-timeout", "armed-timeout-answered-before", "keepalive-3-requests-then-close", "exchange-then-silence-until-idle-timeout", "slow-request-keeps-worker-busy", "partial-then-immediate-close-while-worker-busy", "send-and-half-close-at-once-while-worker-busy", "request-a-streamed-response-then-reset", "long-poll-then-leave-before-the-response-time-out", "unread-response-then-silence-past-the-idle-time-out-then-close", "silence-past-the-idle-time-out-then-orderly-close", "slow-request-keeps-worker-busy-past-the-idle-time-out", "reset-with-pending-file-response", "file-response-read-to-the-end", "head-completed-past-the-time-out-asks-for-a-streamed-response"};
 static std::atomic<int> g_foreign_bytes{0};
 static std::atomic<int> g_own_408{0};
 static std::string g_foreign_detail;
@@ -364,6 +364,11 @@ static void client_behaviour(int port, int b, bool http, Rng& r) {
     case 7: { static const int MS[] = {300, 999, 1000, 1001, 2000, 60000, 1}; c.send_all(req("/armed?ms=" + std::to_string(r.pick(MS)))); readReply(); break; }
     case 18: c.send_all(req("/file")); lv::msleep(r.range(5, 50)); c.rst_close(); return;
     case 19: c.send_all(req("/file")); { lv::HttpMsg m = lv::read_response(c, buf, 0, (int)(8000 * lv::load_factor())); if (!timedOutByServer && (!m.complete || m.status != 200 || m.body.size() != (size_t)(48 << 16))) { if (g_foreign_bytes++ == 0) { std::lock_guard<std::mutex> g(g_m); g_foreign_detail = "file response: status " + std::to_string(m.status) + ", " + std::to_string(m.body.size()) + " body bytes"; } } } break;
+    case 20: {   // the head of a request for a streamed response is completed only after the idle time-out has passed (in a stall round: while the
+                 // worker is away, so that the scan that finds the connection idle and the rest of the head are handled in one poll result).
+                 // Whatever it is answered - 408, the stream, both, nothing - the connection's life cycle has to stay balanced.
+        c.send_all(http ? "GET /stream HTTP/1.1\r\nHost: x\r\n" : "hel"); lv::msleep(1250); c.send_all(http ? "\r\n" : "lo /x\n");
+        { bool eof = false; double end = lv::now() + 3.0; std::string t; while (!eof && lv::now() < end) c.read_some(t, 100, 1 << 22, &eof); } break; }
     case 15: {   // a response it never reads, then silence past the idle time-out and a good while longer, then it leaves
         c.send_all(req("/big")); lv::msleep(3200); break; }
     case 16: lv::msleep(1250); break;   // silent past the idle time-out, then an orderly close - which may reach a busy worker together with the idle scan that has just found it
@@ -421,9 +426,9 @@ static void run_c08(long cases) {
         for (int k = 0; k < nclients; k++) {
             int b = r.range(0, 16);
             if (http && r.chance(1, 8)) b = r.chance(2, 3) ? 18 : 19;
-            if (stallRound) { static const int QUIET[] = {0, 1, 4, 16, 16, 16, 12, 11}; b = k == 0 ? 17 : k <= 2 ? 16 : r.pick(QUIET); }
+            if (stallRound) { static const int QUIET[] = {0, 1, 4, 16, 16, 20, 12, 11, 20}; b = k == 0 ? 17 : k <= 2 ? 16 : r.pick(QUIET); }
             if (!stallRound && k == 0 && r.chance(1, 2)) b = 10;
-            if ((b == 15 || b == 16) && (!http || longTimeouts)) b = 5;
+            if ((b == 15 || b == 16 || b == 20) && (!http || longTimeouts)) b = 5;
             if (g_opts.num("behaviour", -1) >= 0) b = (int)g_opts.num("behaviour", -1);
             if (!http && (b == 6 || b == 7 || b == 9)) b = r.range(0, 5);
             if (longTimeouts && (b == 6 || b == 9)) b = r.range(10, 12);   // idle time-out / response timers exist on the HTTP endpoint only
